@@ -11,7 +11,9 @@ def pool():
                       (0,2**63-1,0),(1,2**63,0),(0,2**63,0),(0,2**96-1,0),(1,2**96-1,0),(0,1,28),(0,10**28-1,0),(0,7,0),(0,3,0),
                       (0,100,2),(0,15,1),(1,10,0),(0,10,0)]:
         N.append(mk_num(neg, m, s))
-    S = ["s()", "s(%s)" % hx("a"), "s(%s)" % hx("ab"), "s(%s)" % hx("é€"), "s(%s)" % hx("abé"), "s(%s)" % hx("b")]
+    S = ["s()", "s(%s)" % hx("a"), "s(%s)" % hx("ab"), "s(%s)" % hx("é€"), "s(%s)" % hx("abé"), "s(%s)" % hx("b"),
+         # strings that look like values of another type: an operand of the wrong type is an error, never a coerced value
+         "s(%s)" % hx("2"), "s(%s)" % hx("-3.50"), "s(%s)" % hx("true"), "s(%s)" % hx("[1]")]
     B = ["b(1)", "b(0)"]
     one = mk_num(0, 1, 0); one0 = mk_num(0, 10, 1)
     L = ["l()", "l(%s)" % one, "l(%s;s(%s))" % (one, hx("a")), "l(b(1);b(0))", "l(b(0);%s)" % one, "l(l(%s))" % one, "l(%s)" % one0,
@@ -21,7 +23,7 @@ def pool():
 
 class P:
     prop = "C03"
-    rule = ("EXEC with operands bound in the context: every built-in infix operator x every ordered pair from a 46-value pool "
+    rule = ("EXEC with operands bound in the context: every built-in infix operator x every ordered pair from a 50-value pool "
             "covering all six value types (numbers: 0, +-1, fractions, equal pairs with different scales, i64 and 96-bit extremes; "
             "booleans; strings incl. empty and multi-byte; lists incl. empty, nested, mixed; maps; None), every prefix/postfix "
             "operator x every pool value, the four functions on 0..3 pool values, plus random nested programs. The documented "
